@@ -321,9 +321,15 @@ def install_stamps():
         return False
     import_repo()
     from leuvenmapmatching.matcher.base import BaseMatching
-    if getattr(BaseMatching, '_verif_stamped', False):
-        return True
-    init0, upd0, update0 = BaseMatching.__init__, BaseMatching._update_inner, BaseMatching.update
+    if getattr(BaseMatching, '_verif_stamped', None) is not None:
+        return BaseMatching._verif_stamped
+    try:
+        init0, upd0, update0 = BaseMatching.__init__, BaseMatching._update_inner, BaseMatching.update
+    except AttributeError:
+        # the entry points were renamed: no stamps (a stale-score case then cannot be attributed to F-stale and is
+        # reported as a violation of C02, which errs on the side of reporting)
+        BaseMatching._verif_stamped = False
+        return False
 
     def _mark(x):
         mt = getattr(x, 'matcher', None)
